@@ -35,6 +35,15 @@ pub fn histories(thorough: bool) -> Vec<(String, Vec<Step>, WlConfig, Option<u32
     ];
     // the interrupted commit writes <segment>.<opstamp>.del; after recovery a writer that issues the same
     // operations draws the same opstamps (rollback / new writer restart the stamper at the commit opstamp)
+    // policy-driven merges of committed segments while a delete is pending (the policy is switched on after
+    // two commits, so that the flush of prepare_commit is the first time it sees two committed segments):
+    // the merge is published (end_merge rewrites meta.json) before the transaction is aborted / committed
+    v.push(("H10_policy_merge_pending_delete_abort".to_string(), vec![Add(1), Commit, Add(2), Commit, EagerOn, DelId(1), Add(3), PrepareWaitAbort, Add(4), Commit], c1.clone(), None));
+    v.push(("H11_policy_merge_pending_delete_commit".to_string(), vec![Add(1), Commit, Add(2), Commit, EagerOn, DelId(1), Add(3), PrepareWaitCommit, DropWriter, NewWriter, Add(4), Commit], c1.clone(), None));
+    // a writer opened on a non-empty index that has not committed yet: delete_all_documents, a collection,
+    // then the transaction is abandoned
+    v.push(("H12_reopened_delete_all_gc_rollback".to_string(), vec![Add(1), Add(2), Commit, DropWriter, NewWriter, DeleteAll, Gc, Rollback, Add(3), Commit], c1.clone(), None));
+    v.push(("H13_reopened_delete_all_gc_restart".to_string(), vec![Add(1), Commit, Add(2), Commit, DropWriter, NewWriter, DeleteAll, Gc, DropWriter, NewWriter, Add(3), Commit], c1.clone(), None));
     v.push(("H9_delete_file_name_reuse".to_string(), vec![Add(1), Add(2), Commit, Rollback, DelId(1), Commit, Add(3), DelId(2), Commit], c1.clone(), None));
     if thorough {
         v.push(("H5_emptied_segment".to_string(), vec![Add(1), Commit, Add(2), Commit, DelId(1), Commit, Merge, Add(3), Commit], c1.clone(), None));
@@ -93,21 +102,36 @@ pub fn gen_histories(len: usize) -> Vec<Vec<Step>> {
 }
 
 pub fn record(name: &str, steps: &[Step], cfg: &WlConfig, flush: Option<u32>) -> History {
+    try_record(name, steps, cfg, flush).unwrap_or_else(|e| panic!("{e}"))
+}
+
+/// Err: a step of the fault-free history returned an error (an observation about the subject, not about
+/// the harness: nothing was injected)
+pub fn try_record(name: &str, steps: &[Step], cfg: &WlConfig, flush: Option<u32>) -> Result<History, String> {
     crate::hist::set_flush_after(flush);
     let sim = SimDirectory::new();
     let mut d = Driver::new(sim.clone(), cfg);
     d.create_index().unwrap();
     d.open_writer().unwrap();
-    for s in steps {
+    for (i, s) in steps.iter().enumerate() {
         let ok = d.step(*s);
-        assert!(ok, "fault-free history step {s:?} failed: {:?}", d.calls.last());
+        if !ok {
+            crate::hist::set_flush_after(None);
+            return Err(format!("step {i} {s:?} of the fault-free history {steps:?} failed: {:?}", d.calls.last().map(|c| c.err.clone())));
+        }
     }
     sim.marker("call drop_writer");
     d.writer = None;
     d.reader = None;
     sim.marker("ret drop_writer ok");
     crate::hist::set_flush_after(None);
-    History { name: name.to_string(), cfg: cfg.clone(), flush_after: flush, steps: steps.to_vec(), log: sim.log(), commit_states: d.model.history.clone() }
+    if std::env::var("VERIF_DEBUG").is_ok() {
+        eprintln!("final ids {:?} commit states {:?}", read_ids(&sim), d.model.history);
+        for e in sim.log() {
+            if let Op::Marker(m) = &e.op { eprintln!("  {m}"); } else if let Op::AtomicWrite { path, .. } = &e.op { eprintln!("     {}: atomic_write {path}", e.tid); }
+        }
+    }
+    Ok(History { name: name.to_string(), cfg: cfg.clone(), flush_after: flush, steps: steps.to_vec(), log: sim.log(), commit_states: d.model.history.clone() })
 }
 
 /// (number of commits that had returned, is a commit in flight) at log position k (after the first k entries)
@@ -116,9 +140,9 @@ fn commit_progress(log: &[LogEntry], k: usize) -> (usize, bool) {
     let mut in_flight = false;
     for e in &log[..k] {
         if let Op::Marker(m) = &e.op {
-            if m.starts_with("call Commit") {
+            if m.starts_with("call Commit") || m.starts_with("call PrepareWaitCommit") {
                 in_flight = true;
-            } else if m.starts_with("ret Commit") {
+            } else if m.starts_with("ret Commit") || m.starts_with("ret PrepareWaitCommit") {
                 in_flight = false;
                 if m.ends_with("ok") {
                     returned += 1;
@@ -354,7 +378,17 @@ pub fn worker(family: &str, start: u64, end: u64, step: u64, arg: &str) {
         let mut idx = start;
         while idx < end && (idx as usize) < hs.len() {
             crate::iso::set_current(idx);
-            let h = record(&format!("gen{idx}"), &hs[idx as usize], &cfg, None);
+            let h = match try_record(&format!("gen{idx}"), &hs[idx as usize], &cfg, None) {
+                Ok(h) => h,
+                Err(e) => {
+                    if prop == "C01" {
+                        crate::iso::emit(&json!({"t":"V","rule":"fault_free_history_step_fails","what":e,"idx":idx,"case":{"prop":prop,"record_failure":true,"steps":hs[idx as usize],"cfg":cfg,"flush":null}}).to_string());
+                    }
+                    crate::iso::idle();
+                    idx += step;
+                    continue;
+                }
+            };
             let mut seen = Seen::default();
             for k in index_created_at(&h.log)..=h.log.len() {
                 for (rule, what, casej) in check_prefix(&h, k, dev, subsets, &mut seen, &mut st, prop) {
@@ -406,6 +440,16 @@ pub fn replay(case: &Value) -> Vec<Violation> {
     let prop = case["prop"].as_str().unwrap_or("C01");
     if let Some(w) = case["conformance"].as_u64() {
         return crate::c01conf::run_one(w as usize).violations.into_iter().map(|(r, w)| Violation::new(&r, w, case.clone())).collect();
+    }
+    if case["record_failure"].as_bool().unwrap_or(false) {
+        let steps: Vec<Step> = serde_json::from_value(case["steps"].clone()).unwrap_or_default();
+        let cfg: WlConfig = serde_json::from_value(case["cfg"].clone()).unwrap_or(WlConfig { workers: 1, dedicated_compressor: false });
+        let flush: Option<u32> = serde_json::from_value(case["flush"].clone()).unwrap_or(None);
+        return match catch_unwind(AssertUnwindSafe(|| try_record("replay", &steps, &cfg, flush))) {
+            Ok(Ok(_)) => vec![],
+            Ok(Err(e)) => vec![Violation::new("fault_free_history_step_fails", e, case.clone())],
+            Err(e) => vec![Violation::new("fault_free_history_panics", panic_message(e), case.clone())],
+        };
     }
     let Some(imgv) = case["image"].as_object() else { return vec![] };
     let img: BTreeMap<String, Vec<u8>> = imgv.iter().map(|(n, d)| (n.clone(), unhex(d.as_str().unwrap_or("")))).collect();
@@ -461,10 +505,20 @@ pub fn crash_family(ctx: &Ctx, prop: &str) -> FamilyOutcome {
             complete = false;
             continue;
         }
-        let h = match catch_unwind(AssertUnwindSafe(|| record(&name, &steps, &cfg, flush))) {
-            Ok(h) => h,
+        let h = match catch_unwind(AssertUnwindSafe(|| try_record(&name, &steps, &cfg, flush))) {
+            Ok(Ok(h)) => h,
+            Ok(Err(e)) => {
+                if prop == "C01" {
+                    st.violation(Violation::new("fault_free_history_step_fails", format!("history {name}: {e}"), json!({"prop":prop,"record_failure":true,"steps":steps,"cfg":cfg,"flush":flush})));
+                }
+                continue;
+            }
             Err(e) => {
-                st.errors.push(format!("recording history {name} failed: {}", panic_message(e)));
+                if prop == "C01" {
+                    st.violation(Violation::new("fault_free_history_panics", format!("history {name} {steps:?}: {} [{}]", panic_message(e), last_panic()), json!({"prop":prop,"record_failure":true,"steps":steps,"cfg":cfg,"flush":flush})));
+                } else {
+                    st.errors.push(format!("recording history {name} failed: {}", panic_message(e)));
+                }
                 continue;
             }
         };
